@@ -280,6 +280,21 @@ func c05Case(c *core.Ctx, idx int) {
 		}
 	}
 	// consequence: every Marshal output walks, recursively, to its precise end
+	var seenVals []reflect.Value
+	var seenRefs [][]byte
+	defer func() {
+		// ... also when several goroutines use the codecs at once: sizes, length prefixes and bodies
+		// of one call must not depend on the values other calls are encoding
+		if idx%4 == 2 && len(seenVals) > 1 {
+			const g, rounds = 6, 40
+			same := func(i int, a, b []byte) bool { return bytes.Equal(a, b) }
+			rec.Eval(g * rounds * len(seenVals))
+			rec.Count("concurrent_marshal_calls", g*rounds*len(seenVals))
+			if d := concurrentMarshals(tc.p, seenVals, seenRefs, same, g, rounds, false); d != "" {
+				rec.Violation("walk", fmt.Sprintf("with other goroutines marshalling other values of the type [%s]: %s\n  type %s", tc.name, d, typeString(tc.typ)), caseExtra(tc, reflect.Value{}, nil))
+			}
+		}
+	}()
 	for j := 0; j < nv; j++ {
 		vg := &gen.VG{R: rv, C: tc.cfg, Budget: 250}
 		v := vg.Value(tc.typ, "")
@@ -297,6 +312,9 @@ func c05Case(c *core.Ctx, idx int) {
 			return
 		}
 		rec.Count("walked_outputs", 1)
+		if !model.HasMultiMap(v) {
+			seenVals, seenRefs = append(seenVals, model.DeepCopy(v)), append(seenRefs, append([]byte(nil), data...))
+		}
 		// Size, Append and the length prefixes they produce must agree for the value as it is now,
 		// also when the same variable was marshalled before with other content
 		if v.CanAddr() && !model.HasMultiMap(v) {
